@@ -1,6 +1,6 @@
 //! C04 — computed replica sets equal the cluster's own replica placement.
 //!
-//! Case: `q <topology> <keyspace strategies> <strategy> <dc|-> <token>` (syntax: `topology.rs`).
+//! Case: `q<kind> <topology> <keyspace strategies> <strategy> <dc|-> <token>` (syntax: `topology.rs`).
 //! The cluster is built through `ClusterState::new` (hook `cluster_from_topology`); the keyspace strategies are
 //! the ones the driver precomputes, the queried strategy may or may not be among them.
 //! Output: `len=… iter=… choose=… ord=… ep=…` (node ids).
@@ -267,7 +267,7 @@ fn sorted(v: &[u64]) -> Vec<u64> {
 
 pub fn run(case: &str, ctx: &mut Ctx) -> String {
     let w: Vec<&str> = case.split_whitespace().collect();
-    if w.len() != 6 || w[0] != "q" {
+    if w.len() != 6 || !w[0].starts_with('q') {
         return "bad-case".into();
     }
     let (Some(peers), Some(pre), Some(strat), Ok(tok)) =
@@ -537,7 +537,28 @@ fn vary_det(s: &Strat, k: usize) -> Strat {
     }
 }
 
-pub fn generate(rng: &mut Rng, tier: Tier, emit: &mut dyn FnMut(String)) {
+/// First word of a case line: `q` + strategy kind (S/N/L/O) + relation to the precomputed keyspaces
+/// (p = among them, v = others are, n = none) + restriction (a = all datacenters, d = one) + `D` when some token
+/// has several owners.  Only `q` matters to the parsers; the rest feeds the evidence histogram.
+fn kind_word(line: &str) -> String {
+    let w: Vec<&str> = line.split(' ').collect();
+    let pre: Vec<&str> = if w[2] == "-" { vec![] } else { w[2].split('|').collect() };
+    let rel = if pre.is_empty() { 'n' } else if pre.contains(&w[3]) { 'p' } else { 'v' };
+    let dup = parse_topology(w[1]).map(|p| {
+        let mut t: Vec<i64> = p.iter().flat_map(|x| x.tokens.iter().map(|t| norm_token(*t))).collect();
+        let n = t.len();
+        t.sort_unstable();
+        t.dedup();
+        t.len() != n
+    }).unwrap_or(false);
+    format!("q{}{}{}{}", &w[3][..1], rel, if w[4] == "-" { 'a' } else { 'd' }, if dup { "D" } else { "" })
+}
+
+pub fn generate(rng: &mut Rng, tier: Tier, emit0: &mut dyn FnMut(String)) {
+    let emit: &mut dyn FnMut(String) = &mut |line: String| {
+        let k = kind_word(&line);
+        emit0(format!("{}{}", k, &line[1..]))
+    };
     let quick = tier == Tier::Quick;
     // exhaustive small universes
     if quick {
